@@ -29,6 +29,11 @@ fn gen_case(rng: &mut Rng) -> Case {
     let doc = wl::tree(rng, &wl::TreeOpts { max_depth: if custom { 3 } else { 5 }, max_children: if custom { 8 } else { 4 }, custom, ..Default::default() });
     let mut sc = Scenario::new(doc.bytes);
     sc.esi = rng.chance(1, 6);
+    if rng.chance(1, 4) {
+        // tuning knobs (hook): tiny text decoder buffer / no fast path => more, smaller text chunks
+        sc.text_buf = rng.pick(&[8usize, 13, 16, 31, 64]);
+        sc.no_fast_text = rng.chance(1, 3);
+    }
     let mut sels: Vec<SelList> = vec![];
     let n = rng.range(1, 8);
     for _ in 0..n {
